@@ -46,11 +46,11 @@ var (
 	NOW = V{K: Int, I: 1_700_000_003}
 )
 
-func I(i int64) V     { return V{K: Int, I: i} }
-func F(f float64) V   { return V{K: Float, F: f} }
-func S(s string) V    { return V{K: Str, S: s} }
-func B(b bool) V      { return V{K: Bool, B: b} }
-func A(vs ...V) V     { return V{K: Arr, A: vs} }
+func I(i int64) V        { return V{K: Int, I: i} }
+func F(f float64) V      { return V{K: Float, F: f} }
+func S(s string) V       { return V{K: Str, S: s} }
+func B(b bool) V         { return V{K: Bool, B: b} }
+func A(vs ...V) V        { return V{K: Arr, A: vs} }
 func (v V) IsErr() bool  { return v.K == Err }
 func (v V) IsNull() bool { return v.K == Null }
 
